@@ -28,6 +28,9 @@ def types_for(tier):
         ts = universe.rh(tier) + universe.u1_arrays(leaves) + universe.u2_arrays(universe.SH_3) + universe.u2_urefs() + universe.u1_structs(2)[::3] + universe.u3()[::2]
     else:
         ts = universe.rh(tier) + universe.universe("quick")
+    # static extents of ONE (an axis that is only ever indexed with 0) next to dynamic ones, in every position
+    ts = ts + [xt.Arr(xt.Sc("f64"), (1, None, 3)), xt.Arr(xt.Sc("i16"), (None, 1, 2)), xt.Arr(xt.Sc("f32"), (1, None)), xt.Arr(xt.STR, (1, None, 2)),
+               xt.St(xt.Sc("i8"), xt.Arr(xt.Sc("i64"), (1, 1, None)), xt.Sc("f64")), xt.Arr(xt.Sc("u8"), (1, None, 2), (1, 2, 0))]
     # a static extent of ZERO next to a dynamic one
     ts = ts + [xt.Arr(xt.Sc("f64"), (0, None)), xt.Arr(xt.Sc("i16"), (None, 0)), xt.St(xt.Sc("i8"), xt.Arr(xt.Sc("f32"), (0, None)), xt.Sc("i64"))]
     out, seen = [], set()
